@@ -244,8 +244,15 @@ pub enum GvItem {
 
 #[derive(Clone, Debug, Serialize, Deserialize, PartialEq, Eq, Hash)]
 pub enum Noise {
-    /// GetValues with request id 0; `trunc` bytes are cut off the end of the body
-    GetValues { items: Vec<GvItem>, trunc: u8, pad: u8 },
+    /// GetValues with request id 0; `trunc` bytes are cut off the end of the body; `long` encodes
+    /// every length in the four-byte form (legal, some clients always do)
+    GetValues {
+        items: Vec<GvItem>,
+        trunc: u8,
+        pad: u8,
+        #[serde(default)]
+        long: bool,
+    },
     /// record of a type outside 1..=11
     UnknownType { ty: u8, id: u16, len: u16, pad: u8 },
     /// Params/Stdin/Data/Abort record carrying another request's id
@@ -296,18 +303,19 @@ impl Noise {
     pub fn build(&self, own: u16, phase: Phase) -> Option<Rec> {
         let idle = phase == Phase::Idle;
         Some(match self {
-            Noise::GetValues { items, trunc, pad } => {
+            Noise::GetValues { items, trunc, pad, long } => {
                 let mut body = Vec::new();
+                let l = *long;
                 for it in items {
                     match it {
-                        GvItem::Known(k) => wire::enc_pair(KNOWN[*k as usize % 3], b"", &mut body),
-                        GvItem::KnownWithValue(k, v) => wire::enc_pair(KNOWN[*k as usize % 3], &v.bytes(), &mut body),
+                        GvItem::Known(k) => wire::enc_pair_forms(KNOWN[*k as usize % 3], b"", l, l, &mut body),
+                        GvItem::KnownWithValue(k, v) => wire::enc_pair_forms(KNOWN[*k as usize % 3], &v.bytes(), l, l, &mut body),
                         GvItem::Other(n, v) => {
                             let mut name = n.bytes();
                             if KNOWN.iter().any(|k| *k == &name[..]) {
                                 name.push(b'x');
                             }
-                            wire::enc_pair(&name, &v.bytes(), &mut body);
+                            wire::enc_pair_forms(&name, &v.bytes(), l, l, &mut body);
                         },
                     }
                 }
@@ -393,7 +401,7 @@ pub fn noise(max_pair: u32) -> BoxedStrategy<Noise> {
     let pad = prop_oneof![3 => Just(0u8), 2 => 0u8..=9, 1 => any::<u8>(), 1 => Just(255u8)];
     prop_oneof![
         5 => (proptest::collection::vec(gv_item(max_pair), 0..6), prop_oneof![4 => Just(0u8), 1 => 1u8..6], pad.clone())
-            .prop_map(|(items, trunc, pad)| Noise::GetValues { items, trunc, pad }),
+            .prop_map(|(items, trunc, pad)| Noise::GetValues { items, trunc, long: pad % 5 == 1, pad }),
         4 => (any::<u8>(), prop_oneof![Just(0u16), Just(1), any::<u16>()], noise_len(), pad.clone())
             .prop_map(|(ty, id, len, pad)| Noise::UnknownType { ty, id, len, pad }),
         3 => (0u8..4, id_delta(), noise_len(), pad.clone()).prop_map(|(ty, id_delta, len, pad)| Noise::Foreign { ty, id_delta, len, pad }),
